@@ -4,6 +4,7 @@ The agent gets the property text and a scratch worktree only — nothing from /v
 import json, sys
 pid = sys.argv[1]
 n = int(sys.argv[2]) if len(sys.argv) > 2 else 2
+avoid = sys.argv[3:]  # titles of changes already collected, to be avoided
 p = {json.loads(l)["id"]: json.loads(l) for l in open("/verif/properties.jsonl")}[pid]
 print(f"""You are helping test a verification effort for the Go library klev-dev/klevdb (an embedded single-partition append-only message log: segment rollover, CRC-framed records, offset/time/key indexes, delete-by-rewrite, recovery, trim/compaction helpers).
 
@@ -27,4 +28,4 @@ For each change i = 1..{n}:
  5. Save into /tmp/seedout/{pid}/m<i>/ : patch.diff (output of `git diff` for the non-test source change ONLY, applicable with `git apply` at the repository root), the demonstration file(s), and meta.json with keys: property ("{pid}"), title (one line), what_it_breaks, needs_to_manifest (what specific input/schedule/crash point/sequence is needed), demo_cmd (exact command run from the repository root after copying the demo file there), suite_passes (true/false), demo_fails_with_change (true/false), demo_passes_without_change (true/false), files_changed.
  6. Restore the worktree to clean.
 
-Do not modify or delete existing tests. Do not add build tags. Keep each patch small. When done, reply with a short summary: for each change, its title, files touched, and the verification results.""")
+{("ALREADY COLLECTED — do NOT produce these or close variants of them (same site or same mechanism); find different places and mechanisms:" + chr(10) + chr(10).join("  - " + a for a in avoid) + chr(10) + chr(10)) if avoid else ""}Do not modify or delete existing tests. Do not add build tags. Keep each patch small. When done, reply with a short summary: for each change, its title, files touched, and the verification results.""")
